@@ -64,7 +64,19 @@ def make_job(rng, kind, late=False, width=64):
         nfr = rng.randint(3 if late else 2, 5)
         # detections withheld from the linker in frames after the first (forces relocation from the image)
         withhold = {t: rng.choice(['all', 'first', 'none']) for t in range(1, nfr)}
-        return dict(kind=kind, images=blob_movie(rng, nfr, amp=amp, bg=bg, late=late, width=width), memory=rng.choice([0, 1]), amp=amp, bg=bg, withhold=withhold)
+        images = blob_movie(rng, nfr, amp=amp, bg=bg, late=late, width=width)
+        job = dict(kind=kind, images=images, memory=rng.choice([0, 1]), amp=amp, bg=bg, withhold=withhold)
+        if rng.random() < 0.35:
+            # float64 frames held in memory (a normalised movie) and band-pass preprocessing, as find_link(preprocess=True)
+            # installs it: the frames stay the caller's, whatever the preprocessing does with them
+            fl = []
+            for im in images:
+                g = (np.asarray(im, dtype=np.float64) / 255.0).view(Img)
+                g.frame_no = im.frame_no
+                fl.append(g)
+            job['images'] = fl
+            job['bandpass'] = True
+        return job
     q = rng.random() < 0.4
     fr = linkgen.gen_movie(rng, quarter=q, nframes=rng.randint(2, 6))
     ndim = fr[0].shape[1]
@@ -90,6 +102,10 @@ def start(job):
             if mode == 'first' and len(coords):
                 return coords[1:]
             return coords
+        if job.get('bandpass'):
+            from trackpy.preprocessing import bandpass
+            return find_link_iter(job['images'], 4, 9, memory=job['memory'], before_link=before_link,
+                                  proc_func=lambda x: bandpass(x, 1, 9, None))
         return find_link_iter(job['images'], 4, 9, memory=job['memory'], before_link=before_link)
     srf = job.get('sr_obj', linkgen.sr_float(job['sr']))
     if k == 'iter':
@@ -156,6 +172,9 @@ def run_schedule(jobs, sched):
     groups = {}
     img_before = {id(im): np.array(im, copy=True) for job in jobs if job['kind'] == 'find_link' for im in job['images']}
     for job in jobs:
+        if job['kind'] == 'find_link' and '_images0' not in job:
+            job['_images0'] = [np.array(im, copy=True) for im in job['images']]       # as handed over, for the replay file
+    for job in jobs:
         job.pop('_kept', None); job.pop('_dfs', None)
         g = job.get('share_tables')
         if g is not None and job['kind'] == 'df_iter':
@@ -221,12 +240,15 @@ def labels_injective(job, out):
 def jsonable_jobs(jobs, sched, outs=None):
     js = []
     for job in jobs:
-        d = {k: v for k, v in job.items() if k not in ('frames', 'images', 'sr', 'sr_obj', '_kept', '_dfs')}
+        d = {k: v for k, v in job.items() if k not in ('frames', 'images', 'sr', 'sr_obj', '_kept', '_dfs', '_images0')}
         if 'frames' in job:
             d['frames'] = [f.tolist() for f in job['frames']]
             d['search_range'] = [str(x) for x in job['sr']] if isinstance(job['sr'], tuple) else str(job['sr'])
         if 'images' in job:
             d['images'] = 'blob movie %d frames' % len(job['images'])
+            # the frames themselves (grey levels 0..255; float64 jobs hold these divided by 255), so that the schedule can be replayed
+            d['images_u8'] = [np.rint(np.asarray(im, dtype=np.float64) * (255.0 if job.get('bandpass') else 1.0)).astype(int).tolist() for im in job.get('_images0', job['images'])]
+            d['withhold'] = {str(k): v for k, v in job.get('withhold', {}).items()}
         js.append(d)
     return dict(jobs=js, schedule=sched, outputs=None if outs is None else {str(k): v for k, v in outs.items()})
 
@@ -500,15 +522,60 @@ def replay(chk, path):
         return _replay(chk, path)
 
 
+def _replay_find_link(chk, r, cj):
+    """a schedule with find_link jobs: rebuilt from the recorded frames, judged at Python level (frames and memoised
+    tables untouched, labels injective, partition equal to the solo and to the repeated run)"""
+    jobs = []
+    for d in cj['jobs']:
+        if 'images_u8' in d:
+            ims = []
+            for t, a in enumerate(d['images_u8']):
+                g = np.array(a, dtype=np.uint8)
+                g = (g.astype(np.float64) / 255.0) if d.get('bandpass') else g
+                g = g.view(Img); g.frame_no = t
+                ims.append(g)
+            jobs.append(dict(kind='find_link', images=ims, memory=d['memory'], withhold={int(k): v for k, v in d.get('withhold', {}).items()},
+                             bandpass=bool(d.get('bandpass'))))
+        elif 'frames' in d:
+            fr = [np.array(f, dtype=float).reshape(len(f), -1) for f in d['frames']]
+            ndim = d['ndim']
+            jobs.append(dict(kind=d['kind'], frames=[f.reshape(len(f), ndim) for f in fr], sr=(tuple(Fraction(x) for x in d['search_range']) if isinstance(d['search_range'], list) else Fraction(d['search_range'])),
+                             memory=d['memory'], ndim=ndim, max_size=linkgen.LIMIT, strategy=d['strategy'], guess_pos=d.get('guess_pos', False)))
+        else:
+            print('replay: this replay file predates the recording of find_link frames; rerun with the recorded seed'); return
+    sched = cj['schedule']
+    for name, m in memo_tables():
+        m.cache.clear()
+    inter = run_schedule(jobs, sched)
+    solo = {j: run_schedule(jobs, [x for x in sched if x == j])[j] for j in range(len(jobs))}
+    chk.count(('replay', 'find_link schedule'), True)
+    ntab, badtab = memo_purity()
+    print('replay: schedule', sched, 'frames modified:', inter.get('_modified_frames'), 'memoised tables changed:', badtab)
+    if '_modified_frames' in inter:
+        chk.violation('find_link job: frame array modified', 'a find_link_iter job wrote into frame %d it was given (schedule %s)' % (inter['_modified_frames'], sched), r)
+    if badtab:
+        chk.violation('memoised table modified', 'shared memoised table %s%s no longer equals what the function computes' % badtab[0], r)
+    for j, job in enumerate(jobs):
+        if job['kind'] != 'find_link':
+            continue
+        why = labels_injective(job, inter[j])
+        same = partition_of(job, inter[j]) == partition_of(job, solo[j])
+        print('replay: find_link job', j, 'labels injective:', why is None, 'partition equals solo run:', same)
+        if why:
+            chk.violation('interleaved job: label shared', why, r)
+        elif not same:
+            chk.violation('find_link job: partition depends on other jobs', 'find_link_iter job %d: partition differs from its solo run under schedule %s' % (j, sched), r)
+
+
 def _replay(chk, path):
     common.quiet_trackpy()
     chk.coq()
     r = json.load(open(path))['replay']
     cj = r['case']
     jobs = []
+    if any('frames' not in d for d in cj['jobs']):
+        return _replay_find_link(chk, r, cj)
     for d in cj['jobs']:
-        if 'frames' not in d:
-            print('replay: find_link job cannot be rebuilt from the replay file; rerun with the recorded seed'); return
         fr = [np.array(f, dtype=float).reshape(len(f), -1) for f in d['frames']]
         ndim = d['ndim']
         jobs.append(dict(kind=d['kind'], frames=[f.reshape(len(f), ndim) for f in fr], sr=(tuple(Fraction(x) for x in d['search_range']) if isinstance(d['search_range'], list) else Fraction(d['search_range'])), memory=d['memory'], ndim=ndim,
